@@ -10,7 +10,9 @@
    "cigar_w"  A, o; pos, stored (inputs of the read-back chosen by the driver);
               obs = [oc, ops], obs2 = ops parsed from the string form, back = [oc, seqs, tr]
    "cigar_r"  c, pos, ref, seg; obs = [oc, tr]
-   "msa"      inputs, merges [[a, b, tr]..] (observed calls of align_optimal, may be empty),
+   "msa"      inputs (contents before the call), objs (which positions hold one and the same Sequence
+              object, ProgressiveMsa!Dom_Objs), after (contents of the input objects after the call),
+              merges [[a, b, tr]..] (observed calls of align_optimal, may be empty),
               A (returned alignment), order, leaves (0-based, guide tree in DFS order), tree (tokens)
    "msa_exc"  inputs; an exception other than the documented ValueError
 
@@ -121,9 +123,12 @@ JudgeMsa(e) ==
                     /\ g.tree = tree1)
       dOrder == e.order = e.leaves
       dBalanced == TreeBalanced(e.tree)
-      flags == <<p.rowsPerInput, p.valid, p.complete, p.orderPerm, p.treeOnce>>
+      \* the caller's Sequence objects are as before; okObjs is generator sanity (a harness error if FALSE)
+      okAfter == InputsUnchanged(e.inputs, e.after)
+      okObjs == Dom_Objs(e.inputs, e.objs)
+      flags == <<p.rowsPerInput, p.valid, p.complete, p.orderPerm, p.treeOnce, okAfter, okObjs>>
   IN /\ IF dReplay /\ dOrder /\ dBalanced THEN TRUE ELSE PrintT(<<"DIAG", tid, l + 1, <<dReplay, dOrder, dBalanced>>>>)
-     /\ IF PostAll(p) THEN TRUE
+     /\ IF PostAll(p) /\ okAfter /\ okObjs THEN TRUE
         ELSE PrintT(<<"MISMATCH", tid, l + 1, flags, [inputs |-> e.inputs]>>)
 
 \* align_multiple raised something that is not the documented refusal: never expected; the
